@@ -126,7 +126,8 @@ void lemma_AddCrystal(void)
       __CPROVER_assert(s->name != nm && s->atom != at, "the stored crystal is an independent copy (no memory shared with the caller's struct)");
       __CPROVER_assert(s->n_atom == 2 && s->a == c.a && s->b == c.b && s->c == c.c && s->alpha == c.alpha && s->beta == c.beta && s->gamma == c.gamma, "stored with the geometry it was given");
       __CPROVER_assert(s->atom[0].Zatom == at[0].Zatom && s->atom[1].Zatom == at[1].Zatom && __CPROVER_equal(s->atom[1].fraction, at[1].fraction) && __CPROVER_equal(s->atom[0].x, at[0].x), "stored with the atoms it was given");
-      __CPROVER_assert(__CPROVER_equal(s->volume, Crystal_UnitCellVolume(s, NULL)), "stored with the recomputed cell volume");
+      /* expected volume computed from the caller's geometry (same term as the library computes on the fresh entry before sorting) */
+      __CPROVER_assert(__CPROVER_equal(s->volume, Crystal_UnitCellVolume(&c, NULL)), "stored with the cell volume recomputed from the given geometry");
     }
     if (nc0 == na0) __CPROVER_assert(0, "CANARY growth beyond capacity");
     __CPROVER_assert(0, "CANARY added");
